@@ -11,6 +11,21 @@ TB = ("rustc nightly MIR construction and trait resolution; the vfacts driver an
       "arms are not compiled and not analysed")
 
 CHECKS = {
+    "C01": dict(
+        category="other",
+        text="Decides only the configuration clause of C01: that every clock-edge and reset polarity/synchronicity setting gets the same "
+             "meaning in the emitter, the simulator front end, `veryl test` and the symbol-table prefix/suffix selection. Every function of "
+             "those crates that switches on ResetType, ClockType, the reset/clock variants of TypeKind or CastingType is found; at every "
+             "program point where such a value is constrained to a set of variants (must-facts of the discriminant switches) nothing that "
+             "happens there may contradict the vocabulary of the constraint: bool constants stored into polarity-named destinations "
+             "(reset_active_low, abstract_reset_sync, src_is_high, fn reset_is_async, tuple positions named by the closures that destructure "
+             "them), \"posedge\"/\"negedge\" keywords, enum-to-enum maps, polarity-named build fields; named destinations must cover their "
+             "whole class; same/opposite-polarity fallbacks are negated exactly when the names differ; if_reset emits \"!\" exactly under "
+             "reset_active_low; abstract reset/clock types follow the [build] option. The oracle is the code's own vocabulary. It does not "
+             "decide behavioural equivalence of emitted SystemVerilog and the simulator for any design.",
+        design_ref="DESIGN.md section 3 C01, section 8.4j",
+        technique="enum-variant constraint propagation (must-facts) + vocabulary agreement of sibling classification sites; negation parity of polarity bridges",
+    ),
     "C04": dict(
         category="other",
         text="Decides necessary conditions of 'incremental == clean' that are visible in code shape: every Metadata field "
